@@ -35,7 +35,7 @@ open OsmoVerif.Gen.TrxconMframe (Layout Frame Lchan Pchan)
 open OsmoVerif.Gen.TrxconLchanDesc
 
 /-- `GSM_TDMA_HYPERFRAME` (libosmocore `gsm0502.h`: 2048 · 26 · 51; the environment) -/
-def H : Nat := 2715648
+abbrev H : Nat := 2715648
 
 def u64 (x : Nat) : Nat := x % 18446744073709551616
 
@@ -158,14 +158,16 @@ def delTs (s : Sched) (tn : Nat) : Except Crash (Sched × List Ev) := do
     let _ ← deactivateAll ts
     pure (setTs s tn none, [.pchanComb tn Pchan.NONE.val])
 
+/-- the loop `for (tn = 0; tn < ARRAY_SIZE(sched->ts); tn++) l1sched_del_ts(sched, tn);` -/
+def delAll (s : Sched) (evs : List Ev) : List Nat → Except Crash (Sched × List Ev)
+  | [] => .ok (s, evs)
+  | tn :: rest => do
+    let (s, e) ← delTs s tn
+    delAll s (evs ++ e) rest
+
 /-- `l1sched_reset(sched, reset_clock)`: `l1sched_del_ts` for every timeslot -/
 def resetAll (s : Sched) : Except Crash (Sched × List Ev) :=
-  let rec go (s : Sched) (evs : List Ev) : List Nat → Except Crash (Sched × List Ev)
-    | [] => .ok (s, evs)
-    | tn :: rest => do
-      let (s, e) ← delTs s tn
-      go s (evs ++ e) rest
-  go s [] (List.range TRX_TS_COUNT)
+  delAll s [] (List.range TRX_TS_COUNT)
 
 /-- `LAYOUT_HAS_LCHAN(layout, lchan)`: `layout->lchan_mask & ((uint64_t) 0x01 << lchan)`,
     tested against zero in all its 64 bits -/
@@ -190,28 +192,41 @@ def allocLchans (mask : Nat) : List Nat → List LchanState → Except Crash (Li
             (updFirst t (fun l => if l.active then l else { l with active := true }) acc)
         else allocLchans mask rest acc
 
-/-- `l1sched_configure_ts(sched, tn, config)` -/
-def configureTs (s : Sched) (tn config : Nat) : Except Crash (Rc × Sched × List Ev) := do
-  let (ts, ev0) ← (do
-    match ← getTs s tn with
-    | some ts =>
-      -- reconfiguration: `l1sched_reset_ts(sched, tn)`
-      let ts ← clearTs ts
-      pure (ts, [Ev.pchanComb tn Pchan.NONE.val])
-    | none =>
-      -- `l1sched_add_ts`: `talloc_zero`, `index = tn`
-      pure ((⟨u8 tn, none, false, []⟩ : Ts), []) : Except Crash (Ts × List Ev))
+/-- `l1sched_configure_ts`, first part: the timeslot to work on - an existing one after
+    `l1sched_reset_ts(sched, tn)` (with its PCHAN_COMB indication), or a new one from
+    `l1sched_add_ts` (`talloc_zero`, `index = tn`) -/
+def configureGetTs (s : Sched) (tn : Nat) : Except Crash (Ts × List Ev) := do
+  match ← getTs s tn with
+  | some ts =>
+    let ts ← clearTs ts
+    pure (ts, [Ev.pchanComb tn Pchan.NONE.val])
+  | none => pure (⟨u8 tn, none, false, []⟩, [])
+
+/-- `l1sched_configure_ts`, from "Choose proper multiframe layout" on; the allocation loop
+    `for (type = 0; type < _L1SCHED_CHAN_MAX; type++)` runs over `types` -/
+def configureRest (types : List Nat) (s : Sched) (tn config : Nat) (ts : Ts) (ev0 : List Ev) :
+    Except Crash (Rc × Sched × List Ev) :=
   let lay := layoutForVal config (u8 tn)
   let ts := { ts with layout := lay }
   match lay with
   | none => pure (.EINVAL, setTs s tn (some ts), ev0)
   | some L =>
     if L.config.val != config then pure (.EINVAL, setTs s tn (some ts), ev0)
-    else
+    else do
       -- `INIT_LLIST_HEAD(&ts->lchans)`, then the allocation loop
-      let lch ← allocLchans L.lchanMask (List.range L1SCHED_CHAN_MAX) []
+      let lch ← allocLchans L.lchanMask types []
       let ts := { ts with lchansInit := true, lchans := lch }
       pure (.ok, setTs s tn (some ts), ev0 ++ [.pchanComb (u8 tn) config])
+
+/-- `l1sched_configure_ts(sched, tn, config)` with the allocation loop over `types` -/
+def configureTsOn (types : List Nat) (s : Sched) (tn config : Nat) :
+    Except Crash (Rc × Sched × List Ev) := do
+  let (ts, ev0) ← configureGetTs s tn
+  configureRest types s tn config ts ev0
+
+/-- `l1sched_configure_ts(sched, tn, config)` -/
+def configureTs (s : Sched) (tn config : Nat) : Except Crash (Rc × Sched × List Ev) :=
+  configureTsOn (List.range L1SCHED_CHAN_MAX) s tn config
 
 /-! ## the frame lookups -/
 
@@ -256,19 +271,22 @@ def substLoop (L : Layout) (type tn : Nat) : Nat → Nat → Tdma → Except Cra
       let (td', evs) ← substLoop L type tn n bfn ⟨bfn, u64 (td.numProc + 1), u64 (td.numLost + 1)⟩
       pure (td', Ev.rx type tn bfn fp.dlBid :: evs)
 
+/-- `subst_frame_loss` from "Check TDMA frame order" on, `e` being the value of `elapsed` -/
+def substAfterElapsed (L : Layout) (tn : Nat) (l : LchanState) (e : Int) :
+    Except Crash (Rc × Tdma × List Ev) :=
+  if e < 0 then .ok (.EALREADY, l.tdma, [])
+  else if e > (L.period : Int) then .ok (.EIO, l.tdma, [])
+  else if e = 0 then .ok (.EIO, l.tdma, [])
+  else do
+    let (td, evs) ← substLoop L l.type tn (e - 1).toNat l.tdma.lastProc l.tdma
+    pure (.ok, td, evs)
+
 /-- `subst_frame_loss(lchan, handler, fn)` on a channel state of a timeslot with layout `L`
     and index `tn` -/
 def substFrameLoss (L : Layout) (tn : Nat) (l : LchanState) (fn : Nat) :
     Except Crash (Rc × Tdma × List Ev) :=
   if l.tdma.numProc = 0 then .ok (.EAGAIN, l.tdma, [])
-  else
-    let e := elapsedOf fn l.tdma.lastProc
-    if e < 0 then .ok (.EALREADY, l.tdma, [])
-    else if e > (L.period : Int) then .ok (.EIO, l.tdma, [])
-    else if e = 0 then .ok (.EIO, l.tdma, [])
-    else do
-      let (td, evs) ← substLoop L l.type tn (e - 1).toNat l.tdma.lastProc l.tdma
-      pure (.ok, td, evs)
+  else substAfterElapsed L tn l (elapsedOf fn l.tdma.lastProc)
 
 /-- result of `l1sched_handle_rx_burst`: return code, new state, handler calls, and the
     value written to `bi->bid` (`none`: not written) -/
